@@ -14,7 +14,9 @@ package main
 //               StartSequence in chunks.  header: chunk=N entries per response, codec=none|zstd|
 //               snappy (payloads compressed with the real CompressionManager), skip=1 (the first
 //               response of the second stream starts one entry late), restart=K (after K applied
-//               entries the Replica is stopped and a new one built the way the manager does)
+//               entries the Replica is stopped and a new one built the way the manager does),
+//               push=1 (the whole log is sent on the first stream, one response of chunk entries
+//               behind the other: every part of a split transaction is delivered)
 
 import (
 	"context"
@@ -270,6 +272,9 @@ type c13FakePrimary struct {
 	codec   rpb.CompressionCodec
 	cm      *replication.CompressionManager
 	skip    bool
+	push    bool // all chunks of the log follow one another on the same stream
+	resume  bool // a new stream continues behind the last entry SENT (position, not number)
+	pos     int
 	starts  []uint64
 	nacks   []uint64
 	acks    []uint64
@@ -312,6 +317,70 @@ func (f *c13FakePrimary) StreamWAL(req *rpb.WALStreamRequest, stream rpb.WALRepl
 	late := f.skip && k == 2
 	f.mu.Unlock()
 	stream.SendHeader(metadata.Pairs("session-id", fmt.Sprintf("c13-%d", k)))
+	if f.push {
+		// the log from the first entry numbered >= StartSequence on, chunk entries per response, one
+		// response behind the other on this stream: a transaction (one number) may be spread over
+		// several responses, each of which is delivered
+		first := len(f.L)
+		for i, e := range f.L {
+			if e.seq >= req.StartSequence {
+				first = i
+				break
+			}
+		}
+		for i := first; i < len(f.L); i += f.chunk {
+			j := i + f.chunk
+			if j > len(f.L) {
+				j = len(f.L)
+			}
+			var es []*rpb.WALEntry
+			for _, e := range f.L[i:j] {
+				pe, _ := replication.WALEntryToProto(&wal.Entry{SequenceNumber: e.seq, Type: e.op, Key: e.k, Value: e.v}, rpb.FragmentType_FULL)
+				es = append(es, pe)
+			}
+			f.mu.Lock()
+			f.sent++
+			f.mu.Unlock()
+			if err := stream.Send(&rpb.WALStreamResponse{Entries: es, Codec: rpb.CompressionCodec_NONE}); err != nil {
+				return err
+			}
+			time.Sleep(5 * time.Millisecond)
+		}
+		<-stream.Context().Done()
+		return nil
+	}
+	if f.resume {
+		// the primary keeps its own cursor per replica: the next stream begins with the entry behind
+		// the last one it sent, also when that is the rest of a transaction whose number the
+		// replica reports already (StartSequence is one too high then). Every entry is delivered
+		// exactly once, in order.
+		f.mu.Lock()
+		i := f.pos
+		for i < len(f.L) && f.L[i].seq+1 < req.StartSequence {
+			i++ // (never the case when the replica applies what it is sent)
+		}
+		j := i + f.chunk
+		if j > len(f.L) {
+			j = len(f.L)
+		}
+		f.pos = j
+		f.mu.Unlock()
+		var es []*rpb.WALEntry
+		for _, e := range f.L[i:j] {
+			pe, _ := replication.WALEntryToProto(&wal.Entry{SequenceNumber: e.seq, Type: e.op, Key: e.k, Value: e.v}, rpb.FragmentType_FULL)
+			es = append(es, pe)
+		}
+		if len(es) > 0 {
+			f.mu.Lock()
+			f.sent++
+			f.mu.Unlock()
+			if err := stream.Send(&rpb.WALStreamResponse{Entries: es, Codec: rpb.CompressionCodec_NONE}); err != nil {
+				return err
+			}
+		}
+		<-stream.Context().Done()
+		return nil
+	}
 	resp := f.response(req.StartSequence, late)
 	if len(resp.Entries) > 0 {
 		f.mu.Lock()
@@ -390,7 +459,7 @@ func runC13Replica(c *Case, out func(string)) {
 			}
 		}
 	}
-	fp := &c13FakePrimary{L: o.L, chunk: chunk, codec: codec, cm: cm, skip: hdrVal(c.Hdr, "skip", "0") == "1"}
+	fp := &c13FakePrimary{L: o.L, chunk: chunk, codec: codec, cm: cm, skip: hdrVal(c.Hdr, "skip", "0") == "1", push: hdrVal(c.Hdr, "push", "0") == "1", resume: hdrVal(c.Hdr, "resume", "0") == "1"}
 	lis, err := net.Listen("tcp", "127.0.0.1:0")
 	if err != nil {
 		out("IMPL-ERROR " + err.Error())
@@ -423,11 +492,19 @@ func runC13Replica(c *Case, out func(string)) {
 	deadline := time.Now().Add(time.Duration(budget) * time.Millisecond)
 	samples, restarts := 0, 0
 	quiet := 0
+	var pushed []c13Entry
 	for time.Now().Before(deadline) {
 		time.Sleep(40 * time.Millisecond)
 		app := rec.take()
 		cur := rep.GetLastAppliedSequence()
-		if len(app) > 0 {
+		if len(app) > 0 && (fp.push || fp.resume) {
+			// every part of a transaction is delivered: the state in between two responses is the
+			// known finding C13-F1 (a number reported with its transaction half applied), what counts
+			// here is what has been applied when the stream is quiet
+			samples++
+			quiet = 0
+			pushed = append(pushed, app...)
+		} else if len(app) > 0 {
 			samples++
 			quiet = 0
 			c13JudgeApplied(o, fmt.Sprintf("sample %d", samples), app, cur, false)
@@ -448,11 +525,18 @@ func runC13Replica(c *Case, out func(string)) {
 			}
 			continue
 		}
-		if (o.n == len(o.L) || o.tainted) && quiet > 10 {
+		if (o.n == len(o.L) || o.tainted || len(pushed) >= len(o.L)) && quiet > 10 {
 			break
 		}
 		if quiet > 60 {
 			break
+		}
+	}
+	if fp.push || fp.resume {
+		// nothing excuses a missing or repeated entry: no delivery was withheld
+		c13JudgeApplied(o, "when the stream was quiet", pushed, rep.GetLastAppliedSequence(), true)
+		if !o.tainted && o.n < len(o.L) {
+			o.fail("", fmt.Sprintf("every entry was delivered, L[%d] = {%s} was never applied", o.n, o.L[o.n].String()))
 		}
 	}
 	stopped := make(chan struct{})
